@@ -5,11 +5,13 @@ package main
 // fragment streams. Every random choice derives from the RNG handed in.
 
 import (
+	"bytes"
 	"encoding/json"
 	"os"
 	"path/filepath"
 	"sort"
 	"strings"
+	"sync"
 
 	"github.com/yuin/goldmark"
 	"github.com/yuin/goldmark/extension"
@@ -494,4 +496,28 @@ func DocStream(rng *RNG, n int, f func(kind string, doc []byte)) {
 		}
 		k++
 	}
+}
+
+func convertWithExtGFM(src []byte) []byte {
+	var b bytes.Buffer
+	if err := goldmark.New(goldmark.WithExtensions(extension.GFM)).Convert(src, &b); err != nil {
+		return []byte("ERROR: " + err.Error())
+	}
+	return b.Bytes()
+}
+
+// pooled instances (one user at a time) for high-volume components
+var mdPools sync.Map
+
+func pooledMarkdown(c Cfg) goldmark.Markdown {
+	p, _ := mdPools.LoadOrStore(c.Name(), &sync.Pool{})
+	if v := p.(*sync.Pool).Get(); v != nil {
+		return v.(goldmark.Markdown)
+	}
+	return c.Build()
+}
+
+func releaseMarkdown(c Cfg, m goldmark.Markdown) {
+	p, _ := mdPools.LoadOrStore(c.Name(), &sync.Pool{})
+	p.(*sync.Pool).Put(m)
 }
